@@ -146,6 +146,28 @@ def r2_seed(ck, F, R="C06-R2"):
     ps = [x for x in list(calls(b, "BinaryHeap::<T, A>::push")) + list(calls(b, "Vec::<T, A>::push"))
           if any(y.k == "agg" and y.x.get("adt") == "merger::Entry" for y in b.arg_exprs(x[0])[1].walk())]
     ck.exact(R, "pushes of a source entry while seeding", len(ps), 1, F.config)
+    # every source is looked at: the seeding loop is left only when its iterator is exhausted (or with an error) —
+    # `break` on the first empty source would drop every source added after it (seeded C06-23)
+    if ps:
+        lp = [(h, blks) for h, blks in b.loops() if ps[0][0].bb in blks]
+        bad_exits = []
+        okx = len(lp) >= 1
+        if lp:
+            h, blks = min(lp, key=lambda x: len(x[1]))
+            eo = error_only_blocks(b)
+            nxt = [s_ for s_, c_, t_ in b.calls() if s_.bb in blks and callee_name(c_).endswith("::next") and any(x.k == "call" and x.x["path"].endswith("enumerate") for x in b.arg_exprs(s_)[0].walk())]
+            none_t = set()
+            for s_ in nxt:
+                pe_ = presence_edges(b, s_)
+                if pe_:
+                    none_t.add(pe_[2])
+            for bb_ in sorted(blks):
+                for sx in b.succs(bb_):
+                    if sx in blks or sx in eo or sx in none_t or diverges(b, sx):
+                        continue
+                    bad_exits.append(b.loc(Site(bb_, None)))
+            okx = bool(nxt) and not bad_exits
+        ck.ob(R, "seed-loop-has-no-early-exit", okx, "the seeding loop ends only when every source was looked at (exits: iterator exhausted, or an error)" + (f" — early exit at {bad_exits}" if bad_exits else ""), b, ps[0][0])
     for bb_, s_, rv_ in aggregates(F, "merger::MergerIter"):
         if bb_.path != b.path or not ps:
             continue
